@@ -187,7 +187,7 @@ def train_multi_agent_on_policy(
 
     agent_ids = deepcopy(pop[0].shared_agent_ids)
     pop_loss = [{agent_id: [] for agent_id in agent_ids} for _ in pop]
-    pop_fitnesses = [{agent_id: [] for agent_id in agent_ids} for _ in pop]
+    pop_fitnesses = []
     entropy_hist = [{agent_id: [] for agent_id in agent_ids} for _ in pop]
     total_steps = 0
     loss = None
@@ -282,7 +282,9 @@ def train_multi_agent_on_policy(
                             )
                         )
                         if sum_scores
-                        else np.array(list(reward.values())).transpose()
+                        else np.array(
+                            list(agent.sum_shared_rewards(reward).values())
+                        ).transpose()
                     )
 
                     scores += score_increment
@@ -401,7 +403,7 @@ def train_multi_agent_on_policy(
                 for score in pop_episode_scores
                 if score
             ]
-            if pop_episode_scores:
+            if pop_mean_scores:
                 mean_scores = np.stack(pop_mean_scores, axis=0)
                 mean_score_dict = {
                     "train/mean_score/" + agent: np.mean(mean_scores[:, idx], axis=-1)
